@@ -486,7 +486,7 @@ const DT_MUT_ALPHA: [char; 24] =
 fn gen_dt(em: &mut Emitter) {
     let thorough = em.thorough();
     let mut rng = Rng::new(em.args.seed.wrapping_mul(0x2003).wrapping_add(77));
-    let nrand = if thorough { 400 } else { 36 };
+    let nrand = if thorough { 400 } else { 72 };
     let mut texts: Vec<(usize, String)> = vec![];
     for u in 0..4 {
         let ins = instants(&mut rng, u, nrand);
